@@ -29,7 +29,11 @@ Headline statements (everything else in this file is a lemma towards them):
                     operations `Atomic` describes; `failed_replace_moves_key_to_end`,
                     `refused_frame_write_leaves_parent_group` show what `Atomic` excludes and why;
 * `filter_subset`, `absent_terms_ignored`, `filter_monotone`, `filter_cols_subset`,
-  `filter_rows_are_stored`   filter terms only restrict. -/
+  `filter_rows_are_stored`, `view_restricts`   filter terms only restrict;
+* `filters_do_not_affect_store`, `reopenWith_keeps_store`, `filtered_ops_K_partial`, `filtered_run_refines`,
+  `filtered_refusal_preserves_content`   the filter terms of the artifact that PERFORMS the operations shape the
+                    view `load` hands out and nothing else: the store, the outcomes, `K`, the refinement and
+                    "refused ⇒ stored content unchanged" hold whatever – and however often changed – they are. -/
 namespace Viv.Props.C19
 open Viv.Artifact
 
@@ -1189,6 +1193,113 @@ theorem filter_rows_are_stored (t : Table) (terms : List Term) :
   rw [loadRows_nil] at this
   obtain ⟨x, hx, rfl⟩ := List.mem_map.mp this
   exact List.mem_zipIdx_iff_getElem?.mp hx
+
+/-! ### the acting artifact's filter terms do not reach the store -/
+
+/-- what the property says an operation of a (possibly filtered) artifact does to the key → data map:
+constructing another artifact on the file does nothing -/
+def fspecStep (m : Spec) : FOp → Spec
+  | .op o => specStep m o
+  | .reopenWith _ => m
+
+/-- **Whatever filter terms the acting artifact was opened with**, every operation does to the store
+(file, bare groups, key list, cache) and returns as outcome exactly what it does for an unfiltered
+artifact – `load` is the only reader of the terms, and they only shape the view it hands out. In
+particular the copy `replace` keeps for rolling back is the unfiltered stored value (`hdfLoad`). -/
+theorem filters_do_not_affect_store (fa : FArt) (t : List Term) (o : Op) :
+    (({ fa with terms := t } : FArt).step (.op o)).1.art = (fa.step (.op o)).1.art ∧
+    (({ fa with terms := t } : FArt).step (.op o)).2 = (fa.step (.op o)).2 ∧
+    (fa.step (.op o)).1.art = (step fa.art o).1 ∧ (fa.step (.op o)).2 = (step fa.art o).2 ∧
+    (fa.step (.op o)).1.terms = fa.terms := ⟨rfl, rfl, rfl, rfl, rfl⟩
+
+/-- constructing the acting artifact anew with other terms changes neither file nor key list (it empties
+the cache); with two draw terms the constructor raises and nothing changes at all -/
+theorem reopenWith_keeps_store {H : List Key} (hs : Sep H) (fa : FArt) (t : List Term) (hK : K H fa.art) :
+    (drawColumns t = none → fa.step (.reopenWith t) = (fa, .rejected)) ∧
+    (drawColumns t ≠ none →
+      fa.step (.reopenWith t) = ({ art := { fa.art with cache := [] }, terms := t }, .ok)) := by
+  constructor
+  · intro h; simp [FArt.step, h]
+  · intro h
+    cases hd : drawColumns t with
+    | none => exact absurd hd h
+    | some cf => simp [FArt.step, hd, open_K hs hK]
+
+theorem fstep_K {H : List Key} (hs : Sep H) (fa : FArt) (o : FOp)
+    (hop : ∀ k, o.key? = some k → k ∈ H ∨ k = ksKey) (hK : K H fa.art) : K H (fa.step o).1.art := by
+  cases o with
+  | op o => exact step_K hs fa.art o hop hK
+  | reopenWith t =>
+    by_cases h : drawColumns t = none
+    · rw [(reopenWith_keeps_store hs fa t hK).1 h]; exact hK
+    · rw [(reopenWith_keeps_store hs fa t hK).2 h]; exact K_clear hK
+
+theorem fstep_G {H : List Key} (hs : Sep H) (fa : FArt) (o : FOp)
+    (hop : ∀ k, o.key? = some k → k ∈ H ∨ k = ksKey) (hK : K H fa.art) (hG : G H fa.art) :
+    G H (fa.step o).1.art := by
+  cases o with
+  | op o => exact step_G hs fa.art o hop hG
+  | reopenWith t =>
+    by_cases h : drawColumns t = none
+    · rw [(reopenWith_keeps_store hs fa t hK).1 h]; exact hG
+    · rw [(reopenWith_keeps_store hs fa t hK).2 h]; exact hG
+
+/-- `ops_K` for histories performed by artifacts with arbitrary – and changing – filter terms -/
+theorem filtered_ops_K_partial {H : List Key} (hs : Sep H) (fops : List FOp)
+    (hops : ∀ o ∈ fops, ∀ k, o.key? = some k → k ∈ H ∨ k = ksKey) (fa : FArt) (hK : K H fa.art) :
+    K H (FArt.run fops fa).art := by
+  induction fops generalizing fa with
+  | nil => exact hK
+  | cons o fops ih =>
+    simp only [FArt.run, List.foldl_cons]
+    exact ih (fun x hx => hops x (List.mem_cons_of_mem _ hx)) _ (fstep_K hs fa o (hops o List.mem_cons_self) hK)
+
+/-- the refinement holds for histories performed by artifacts with arbitrary filter terms: the key → data
+map of the file is the fold of the abstract specification over the operation list, in which filter
+terms do not occur -/
+theorem filtered_run_refines {H : List Key} (hs : Sep H) (fops : List FOp)
+    (hops : ∀ o ∈ fops, ∀ k, o.key? = some k → k ∈ H) (fa : FArt) (hK : K H fa.art) (hG : G H fa.art) :
+    absOf (FArt.run fops fa).art = fops.foldl fspecStep (absOf fa.art) := by
+  induction fops generalizing fa with
+  | nil => rfl
+  | cons o fops ih =>
+    have ho := hops o List.mem_cons_self
+    have ho' : ∀ k, o.key? = some k → k ∈ H ∨ k = ksKey := fun k hk => Or.inl (ho k hk)
+    simp only [FArt.run, List.foldl_cons]
+    have hstep : absOf (fa.step o).1.art = fspecStep (absOf fa.art) o := by
+      cases o with
+      | op o => exact step_refines hs fa.art o ho hK hG
+      | reopenWith t =>
+        by_cases h : drawColumns t = none
+        · rw [(reopenWith_keeps_store hs fa t hK).1 h]; rfl
+        · rw [(reopenWith_keeps_store hs fa t hK).2 h]; rfl
+    rw [← hstep]
+    exact ih (fun x hx => hops x (List.mem_cons_of_mem _ hx)) _ (fstep_K hs fa o ho' hK) (fstep_G hs fa o ho' hK hG)
+
+/-- **a refused operation of an artifact with any filter terms leaves what is stored as it was**: the
+key → data map of the file (hence what every unfiltered artifact loads) and the set of reported keys -/
+theorem filtered_refusal_preserves_content {H : List Key} (hs : Sep H) (fa : FArt) (o : Op)
+    (hop : ∀ k, o.key? = some k → k ∈ H) (hK : K H fa.art) (hG : G H fa.art)
+    (h : (fa.step (.op o)).2 = .rejected) :
+    absOf (fa.step (.op o)).1.art = absOf fa.art ∧
+      (∀ k ∈ H, k ∈ (fa.step (.op o)).1.art.keys ↔ k ∈ fa.art.keys) :=
+  let r := refusal_preserves_content hs fa.art o hop hK hG h
+  ⟨r.1, r.2.1⟩
+
+/-- what an artifact with filter terms hands out for a stored table is a restriction of it: a sub-list
+of its rows, a subset of its columns; without terms, all of it -/
+theorem view_restricts (t : Table) (terms : List Term) (v : View) (h : viewOf t terms = some v) :
+    v.rows.Sublist (loadRows t []) ∧ (∀ c ∈ v.cols, c ∈ t.cols) ∧
+      viewOf t [] = some { rows := loadRows t [], cols := t.cols } := by
+  refine ⟨?_, ?_, rfl⟩
+  · unfold viewOf at h
+    split at h
+    · cases h
+    · cases h; exact filter_subset t terms
+  · unfold viewOf at h
+    split at h
+    · cases h
+    · rename_i cf _; cases h; exact (filter_cols_subset t cf).1
 
 /-! ### the recorded finding (F12) and the limits of atomicity, as witnesses on the model of the code as it is -/
 
